@@ -356,7 +356,16 @@ def load_many(specs, jobs=16):
     tree_hash()
     with ThreadPoolExecutor(max_workers=jobs) as ex:
         paths = list(ex.map(lambda s: extract(s[1], s[2]), specs))
-    return [FactDB(p, label=s[0]) for p, s in zip(paths, specs)]
+    out = []
+    for p, s in zip(paths, specs):
+        try:
+            out.append(FactDB(p, label=s[0]))
+        except (FileNotFoundError, json.JSONDecodeError):
+            # the cache entry was pruned / is being rewritten by a concurrent run: extract again
+            if os.path.exists(p):
+                os.remove(p)
+            out.append(FactDB(extract(s[1], s[2]), label=s[0]))
+    return out
 
 
 # ---------------------------------------------------------------- driver families
